@@ -285,9 +285,11 @@ def _find_coding(text):
     coding = b"coding"
     to_chr = chr
     try:
+        # the declaration is the first `coding` that is followed by `:` or `=`;
+        # "# encoding and decoding -*- coding: latin-1 -*-" has others before it
         start = text.index(coding) + len(coding)
-        if text[start] not in b"=:":
-            return
+        while text[start : start + 1] not in (b"=", b":"):
+            start = text.index(coding, start) + len(coding)
         start += 1
         while start < len(text) and to_chr(text[start]).isspace():
             start += 1
